@@ -18,7 +18,8 @@ op tokens:
                   `A<d>` `M<d>` `E<d>`: the same results from a Ping that OVERRUNS: it returns after d
                   whatever its deadline (its write is blocked while the peer does not read).  In `kss` the
                   capital letter is the harness's finding that the ping returned the moment its blocked
-                  transport write returned.  Further tokens are ignored.
+                  transport write returned.  `tmnf=<ticks|->` (stream `http`): the ticks at which the foreign server
+                  reported ping as unsupported on a transient HTTP status.  Further tokens are ignored.
 observation:
   `pings=<instants|-> to=<time each ping was given until its deadline: one value if all equal, else v1/v2/… | -> close=<instants of Close|-> exit=<0|1> late=<n>`
   (`to`, `exit`, `late` are `-`/`1`/`0` for `kas`, where they cannot be observed from the peer).
@@ -68,8 +69,11 @@ def parseScenario (real : Bool) (toks : List String) : Option Scenario := do
   let t0 ← (← kv toks "T").toInt?
   let scripts ← parseScripts (← kv toks "script")
   let tc ← (← kv toks "cancel").toNat?
+  let tmnf ← match kv toks "tmnf" with
+    | some v => natList v
+    | none => some []
   if I == 0 then none else
-  return { real := real, I := I, t0 := t0, scripts := scripts, tc := tc }
+  return { real := real, I := I, t0 := t0, scripts := scripts, tc := tc, transientMnf := tmnf }
 
 def parseSess (toks : List String) : Option Scenario := do
   let sc ← parseScenario false toks
@@ -160,6 +164,7 @@ def Clause.text : Clause → String
   | .ticksGrid pings m I => s!"pings_at_ticks: pings at {showNats pings}, expected one at each of the first {m} ticks of {I}"
   | .ticksPending pings want I => s!"pings_at_ticks: pings at {showNats pings}, expected {showNats want}: one per tick of {I}, a tick that fires during a ping being served when that ping is over"
   | .f30 stop tc start => s!"silent_stop: keepalive-F30: keep-alive sent a ping at {stop} although it was cancelled (the session's Close was called) at {tc}: the ping issued at {start} was in flight then and ended at {stop} with a tick pending, and the loop served the tick instead of the cancellation; keep-alive ends when the session is closed"
+  | .f31 m pings closes => s!"silent_stop: keepalive-F31: the peer reported ping as unsupported (JSON-RPC -32601) at tick {m} on a transient HTTP status (500/502/503/504/429) and keep-alive did not end there (pings at {showNats pings}, closed at {showNats closes}): the streamable client drops the error body of a transient status, so the answer is counted as a miss; keep-alive ends silently when the peer reports ping as unsupported"
   | .deadlineAll v I => s!"close_time_bound: the ping deadline is {v}, not half the interval ({I / 2})"
   | .deadlineShort j at_ v I =>
     let a := (at_.map toString).getD "?"
